@@ -126,7 +126,7 @@ PhyAt(S, m, cur) == IF S.proc.kind = "phy" /\ m >= S.proc.mI THEN <<S.proc.prx, 
 RadioPhy(o, cur) == IF o.phy = <<>> THEN cur ELSE o.phy[Len(o.phy)]
 
 (* What every scheduled connection event has to satisfy.  must: a listen condition held. *)
-SchedGuards(S, m, o, must, curphy) ==
+SchedGuards(S, m, o, must, curphy, radiophy) ==
     /\ "C22" \in Check => TimingOK(S, m, o)
     /\ "C23" \in Check =>
             /\ m - S.last <= S.par.lat + 1                      \* SkipBound
@@ -137,7 +137,7 @@ SchedGuards(S, m, o, must, curphy) ==
                     /\ TimingOK(S, m, o) /\ o.ci = IntAt(S, m) * U
                     /\ ChannelOK(S, m, o)
             /\ S.proc.kind # "none" => m <= S.proc.mI                \* latency never skips the instant
-            /\ RadioPhy(o, curphy) = PhyAt(S, m, curphy) /\ o.phyafter = 0
+            /\ RadioPhy(o, radiophy) = PhyAt(S, m, curphy) /\ o.phyafter = 0
 
 (* an event with index >= instant took place: the procedure has taken effect *)
 Commit(S, m) ==
@@ -159,19 +159,23 @@ VARIABLES phase,    \* "adv" (no connection) | "conn" (connecting or connected)
           conn,     \* the record S above
           sched,    \* [evt, s, e]: the connection event armed at the radio
           rxq,      \* received PDUs the link layer has not processed yet (only the kinds the properties talk about)
-          phy,      \* <<rx, tx>> PHY the radio was told to use
+          phy,      \* <<rx, tx>> PHY in force for the events that took place (changes when the instant's event takes place)
+          rphy,     \* <<rx, tx>> PHY the radio was told to use last
           cfgs,     \* the latency configurations of the link layer type (sequence of sets of listen conditions)
           cfg       \* the active one
 
-vars == <<phase, conn, sched, rxq, phy, cfgs, cfg>>
+vars == <<phase, conn, sched, rxq, phy, rphy, cfgs, cfg>>
 
 NoConn  == [par |-> [int |-> 0, lat |-> 0, to |-> 0, map |-> {}, hop |-> 0, sca |-> 0], ref |-> [evt |-> 0, t |-> 0],
             win |-> NoWin, last |-> -1, est |-> FALSE, proc |-> NoProc, had |-> FALSE]
 NoSched == [evt |-> -1, s |-> 0, e |-> 0]
 
-Init == phase = "adv" /\ conn = NoConn /\ sched = NoSched /\ rxq = <<>> /\ phy = <<1, 1>> /\ cfgs = <<{}>> /\ cfg = {}
+Init == phase = "adv" /\ conn = NoConn /\ sched = NoSched /\ rxq = <<>> /\ phy = <<1, 1>> /\ rphy = <<1, 1>> /\ cfgs = <<{}>> /\ cfg = {}
 
-ToAdv == phase' = "adv" /\ conn' = NoConn /\ sched' = NoSched /\ rxq' = <<>> /\ phy' = <<1, 1>>
+ToAdv == phase' = "adv" /\ conn' = NoConn /\ sched' = NoSched /\ rxq' = <<>> /\ phy' = <<1, 1>> /\ rphy' = <<1, 1>>
+
+(* PHY in force once event m took place *)
+PhyAfter(S, m, cur) == IF S.proc.kind = "phy" /\ m >= S.proc.mI THEN <<S.proc.prx, S.proc.ptx>> ELSE cur
 
 ClosedReasons(o) == { o.cb[i].a : i \in { j \in 1..Len(o.cb) : o.cb[j].c = "closed" } }
 HasCb(o, name)   == \E i \in 1..Len(o.cb) : o.cb[i].c = name
@@ -189,16 +193,18 @@ ConnReq(p, o) ==
                       last |-> -1, est |-> FALSE, proc |-> NoProc, had |-> FALSE]
             IN  /\ "C22" \in Check => ValidConn(p)
                 /\ \E m \in Cand(S, o) :
-                        /\ SchedGuards(S, m, o, TRUE, <<1, 1>>)
+                        /\ SchedGuards(S, m, o, TRUE, <<1, 1>>, <<1, 1>>)
                         /\ sched' = [evt |-> m, s |-> o.s, e |-> o.e]
-                /\ phase' = "conn" /\ conn' = S /\ rxq' = <<>> /\ phy' = RadioPhy(o, <<1, 1>>)
-       ELSE UNCHANGED <<phase, conn, sched, rxq, phy>>
+                /\ phase' = "conn" /\ conn' = S /\ rxq' = <<>> /\ phy' = <<1, 1>> /\ rphy' = RadioPhy(o, <<1, 1>>)
+       ELSE UNCHANGED <<phase, conn, sched, rxq, phy, rphy>>
     /\ UNCHANGED <<cfgs, cfg>>
 
 (* No valid packet in the scheduled window (timeout() at time `now` relative to T0).         *)
 (* C22 Supervision: the link is given up for timeout only when no packet was received for    *)
 (* the supervision timeout (connecting: when the next opportunity would start after 6        *)
-(* intervals), and it is not kept much longer.                                               *)
+(* intervals - or the supervision timeout has elapsed, which the property statement permits  *)
+(* although the Core spec uses only the 6 interval rule there), and it is not kept much      *)
+(* longer (one interval of slack).                                                           *)
 Timeout(now, o) ==
     /\ phase = "conn" /\ sched.evt >= 0
     /\ o.k \in {"sched", "adv"}
@@ -208,15 +214,17 @@ Timeout(now, o) ==
            THEN /\ "C22" \in Check =>
                         IF conn.est
                         THEN SupervisionTimeout \in ClosedReasons(o) => now >= ToAt(conn, m) * TU
-                        ELSE HasCb(o, "attempt_timeout") => NomT(conn, m + 1) + conn.win.off >= 6 * conn.par.int * U
+                        ELSE HasCb(o, "attempt_timeout") =>
+                                \/ NomT(conn, m + 1) + conn.win.off >= 6 * conn.par.int * U
+                                \/ now >= ToAt(conn, m) * TU    \* (the supervision timeout itself has elapsed: tolerated)
                 /\ ToAdv
            ELSE /\ "C22" \in Check =>
                         IF conn.est THEN NomT(conn, m) < ToAt(conn, m) * TU + IntAt(conn, m) * U
                                     ELSE m < 5
                 /\ \E n \in Cand(S, o) :
-                        /\ SchedGuards(S, n, o, FALSE, phy)
+                        /\ SchedGuards(S, n, o, FALSE, PhyAfter(conn, m, phy), rphy)
                         /\ sched' = [evt |-> n, s |-> o.s, e |-> o.e]
-                /\ conn' = S /\ phy' = RadioPhy(o, phy)
+                /\ conn' = S /\ phy' = PhyAfter(conn, m, phy) /\ rphy' = RadioPhy(o, rphy)
                 /\ UNCHANGED <<phase, rxq>>
     /\ UNCHANGED <<cfgs, cfg>>
 
@@ -293,9 +301,9 @@ EndEvent(dt, f, pend0, rx, o) ==
            /\ IF o.k = "adv"
               THEN ToAdv
               ELSE /\ \E n \in Cand(P.S, o) :
-                          /\ SchedGuards(P.S, n, o, MustListen(f, pend0), phy)
+                          /\ SchedGuards(P.S, n, o, MustListen(f, pend0), PhyAfter(conn, m, phy), rphy)
                           /\ sched' = [evt |-> n, s |-> o.s, e |-> o.e]
-                   /\ conn' = P.S /\ rxq' = P.q /\ phy' = RadioPhy(o, phy)
+                   /\ conn' = P.S /\ rxq' = P.q /\ phy' = PhyAfter(conn, m, phy) /\ rphy' = RadioPhy(o, rphy)
                    /\ UNCHANGED phase
     /\ UNCHANGED <<cfgs, cfg>>
 
@@ -307,13 +315,13 @@ Cancel(o) ==
     /\ o.k \in {"sched", "none"}
     /\ IF o.k = "sched"
        THEN /\ \E n \in Cand(conn, o) :
-                    /\ SchedGuards(conn, n, o, FALSE, phy)
+                    /\ SchedGuards(conn, n, o, FALSE, phy, rphy)
                     /\ "C23" \in Check => n <= sched.evt
                     /\ sched' = [evt |-> n, s |-> o.s, e |-> o.e]
-            /\ phy' = RadioPhy(o, phy)
+            /\ rphy' = RadioPhy(o, rphy)
        ELSE /\ "C23" \in Check => ~o.disok                \* a disarmed radio must be armed again
-            /\ UNCHANGED <<sched, phy>>
-    /\ UNCHANGED <<phase, conn, rxq, cfgs, cfg>>
+            /\ UNCHANGED <<sched, rphy>>
+    /\ UNCHANGED <<phase, conn, rxq, phy, cfgs, cfg>>
 
 (* n uneventful connection events (empty PDUs, no flags) in which the anchor advanced by      *)
 (* ivals intervals in total; only the event scheduled at the end is judged.                   *)
@@ -323,13 +331,13 @@ FastForward(ivals, o) ==
     /\ LET m == conn.ref.evt + ivals
            S == [conn EXCEPT !.last = m, !.ref = [evt |-> m, t |-> 0]]
        IN  /\ \E n \in Cand(S, o) :
-                  /\ SchedGuards(S, n, o, FALSE, phy)
+                  /\ SchedGuards(S, n, o, FALSE, phy, rphy)
                   /\ sched' = [evt |-> n, s |-> o.s, e |-> o.e]
            /\ conn' = S
-    /\ UNCHANGED <<phase, rxq, phy, cfgs, cfg>>
+    /\ UNCHANGED <<phase, rxq, phy, rphy, cfgs, cfg>>
 
-SetConfigs(cs)   == cfgs' = cs /\ cfg' = cs[1] /\ UNCHANGED <<phase, conn, sched, rxq, phy>>
-SwitchConfig(i)  == i \in 1..Len(cfgs) /\ cfg' = cfgs[i] /\ UNCHANGED <<phase, conn, sched, rxq, phy, cfgs>>
+SetConfigs(cs)   == cfgs' = cs /\ cfg' = cs[1] /\ UNCHANGED <<phase, conn, sched, rxq, phy, rphy>>
+SwitchConfig(i)  == i \in 1..Len(cfgs) /\ cfg' = cfgs[i] /\ UNCHANGED <<phase, conn, sched, rxq, phy, rphy, cfgs>>
 
 TypeOK ==
     /\ phase \in {"adv", "conn"}
